@@ -108,21 +108,22 @@ Record core := mkcore {
   pb : list kp;             (* keys put at the front of input_queue during this activation: fed by
                                a handler with first=True, or pushed back by the coroutine *)
   deep : bool;              (* a key fed by a handler was handled by a handler that feeds again: outside the model *)
-  rpops : list kp           (* ghost: key presses popped from input_queue, in order *)
+  rpops : list kp;          (* ghost: key presses popped from input_queue, in order *)
+  fedl : list kp            (* ghost: key presses fed by handlers (first=True), in the order of the calls *)
 }.
 
 Definition late (c : core) : bool := match cph c with CRun => false | _ => true end.
-Definition set_kbuf (b : list kp) (c : core) := mkcore (est c) b (cph c) (wcpr c) (rlog c) (oof c) (pb c) (deep c) (rpops c).
-Definition set_oof (c : core) := mkcore (est c) (kbuf c) (cph c) (wcpr c) (rlog c) true (pb c) (deep c) (rpops c).
-Definition clear_pb (c : core) := mkcore (est c) (kbuf c) (cph c) (wcpr c) (rlog c) (oof c) [] (deep c) (rpops c).
-Definition set_pb (l : list kp) (c : core) := mkcore (est c) (kbuf c) (cph c) (wcpr c) (rlog c) (oof c) l (deep c) (rpops c).
-Definition set_deep (c : core) := mkcore (est c) (kbuf c) (cph c) (wcpr c) (rlog c) (oof c) (pb c) true (rpops c).
-Definition add_pop (k : kp) (c : core) := mkcore (est c) (kbuf c) (cph c) (wcpr c) (rlog c) (oof c) (pb c) (deep c) (rpops c ++ [k]).
+Definition set_kbuf (b : list kp) (c : core) := mkcore (est c) b (cph c) (wcpr c) (rlog c) (oof c) (pb c) (deep c) (rpops c) (fedl c).
+Definition set_oof (c : core) := mkcore (est c) (kbuf c) (cph c) (wcpr c) (rlog c) true (pb c) (deep c) (rpops c) (fedl c).
+Definition clear_pb (c : core) := mkcore (est c) (kbuf c) (cph c) (wcpr c) (rlog c) (oof c) [] (deep c) (rpops c) (fedl c).
+Definition set_pb (l : list kp) (c : core) := mkcore (est c) (kbuf c) (cph c) (wcpr c) (rlog c) (oof c) l (deep c) (rpops c) (fedl c).
+Definition set_deep (c : core) := mkcore (est c) (kbuf c) (cph c) (wcpr c) (rlog c) (oof c) (pb c) true (rpops c) (fedl c).
+Definition add_pop (k : kp) (c : core) := mkcore (est c) (kbuf c) (cph c) (wcpr c) (rlog c) (oof c) (pb c) (deep c) (rpops c ++ [k]) (fedl c).
 (* self.input_queue.extendleft(reversed(buffer)); del buffer[:] *)
-Definition push_back (c : core) := mkcore (est c) [] (cph c) (wcpr c) (rlog c) (oof c) (kbuf c ++ pb c) (deep c) (rpops c).
-Definition set_cph (p : cphase) (c : core) := mkcore (est c) (kbuf c) p (wcpr c) (rlog c) (oof c) (pb c) (deep c) (rpops c).
-Definition set_wcpr (n : nat) (c : core) := mkcore (est c) (kbuf c) (cph c) n (rlog c) (oof c) (pb c) (deep c) (rpops c).
-Definition add_ev (e : ev) (c : core) := mkcore (est c) (kbuf c) (cph c) (wcpr c) (e :: rlog c) (oof c) (pb c) (deep c) (rpops c).
+Definition push_back (c : core) := mkcore (est c) [] (cph c) (wcpr c) (rlog c) (oof c) (kbuf c ++ pb c) (deep c) (rpops c) (fedl c).
+Definition set_cph (p : cphase) (c : core) := mkcore (est c) (kbuf c) p (wcpr c) (rlog c) (oof c) (pb c) (deep c) (rpops c) (fedl c).
+Definition set_wcpr (n : nat) (c : core) := mkcore (est c) (kbuf c) (cph c) n (rlog c) (oof c) (pb c) (deep c) (rpops c) (fedl c).
+Definition add_ev (e : ev) (c : core) := mkcore (est c) (kbuf c) (cph c) (wcpr c) (e :: rlog c) (oof c) (pb c) (deep c) (rpops c) (fedl c).
 
 (* _call_handler: Application.exit raises when the result is already set *)
 Definition call (b : bid) (ks : list kp) (c : core) : core :=
@@ -133,7 +134,8 @@ Definition call (b : bid) (ks : list kp) (c : core) : core :=
           | Some x => match cph c with CRun => CDone x | _ => CBroken end
           end)
          (if is_cprh b then pred (wcpr c) else wcpr c)
-         (EInvoke (late c) b ks :: rlog c) (oof c) (feeds b ks (est c) ++ pb c) (deep c) (rpops c).
+         (EInvoke (late c) b ks :: rlog c) (oof c) (feeds b ks (est c) ++ pb c) (deep c) (rpops c)
+         (fedl c ++ feeds b ks (est c)).
 
 (* for i in range(len(buffer), 0, -1): matches = _get_matches(buffer[:i]) ... break *)
 Fixpoint scan (i : nat) (c : core) : option (bid * nat) :=
@@ -335,7 +337,7 @@ Definition step (s : sys) (l : label) : sys :=
       | Detached =>
           let c := co s in
           let lg := match kbuf c, queue s with [], [] => rlog c | _, _ => ELost (kbuf c) (queue s) :: rlog c end in
-          pk (mksys (mkcore (restart (est c)) [] CRun (wcpr c) (EStart :: lg) (oof c) (pb c) (deep c) (rpops c))
+          pk (mksys (mkcore (restart (est c)) [] CRun (wcpr c) (EStart :: lg) (oof c) (pb c) (deep c) (rpops c) (fedl c))
                     (par s) (pipe s) (wclosed s) (store s) [] Attached (results s) (decoded s) (rcpr s) (soof s))
       | _ => s
       end
@@ -368,7 +370,7 @@ Definition step (s : sys) (l : label) : sys :=
 
 Definition run (ls : list label) (s : sys) : sys := fold_left step ls s.
 
-Definition init_core (e : E) : core := mkcore e [] CRun O [] false [] false [].
+Definition init_core (e : E) : core := mkcore e [] CRun O [] false [] false [] [].
 Definition init (e : E) (p : PS) (r : bool) : sys :=
   mksys (init_core e) p [] false [] [] Detached [] [] r false.
 
@@ -386,6 +388,19 @@ Definition ev_keys (e : ev) : list kp :=
   end.
 (* every key press that left the queue, oldest first, excluding those still in the key buffer *)
 Definition logged (c : core) : list kp := concat (map ev_keys (rev (rlog c))).
+
+(* every key press that went into the key processor and left the key buffer again: handed to a
+   handler, dropped, or thrown out of the key buffer by a reset (the queue part of ELost never
+   entered the processor) *)
+Definition hev_keys (e : ev) : list kp :=
+  match e with ELost ks _ => ks | _ => ev_keys e end.
+Definition handled (c : core) : list kp := concat (map hev_keys (rev (rlog c))).
+
+(* a list of key presses tagged "fed by a handler" (true) / "popped from input_queue" (false):
+   the whole list and its two sub-lists (an interleaving of tl_pop and tl_fed gives tl_all) *)
+Definition tl_all (t : list (bool * kp)) : list kp := map snd t.
+Definition tl_pop (t : list (bool * kp)) : list kp := map snd (filter (fun x => negb (fst x)) t).
+Definition tl_fed (t : list (bool * kp)) : list kp := map snd (filter (fun x => fst x) t).
 
 (* the per-prompt logs: the events between two EStart markers *)
 Fixpoint split_prompts (l : list ev) (cur : list ev) : list (list ev) :=
